@@ -242,7 +242,7 @@ func (x *FnExec) execInstr(b *ssa.BasicBlock, in ssa.Instruction, st *State) boo
 		for i, r := range in.Results {
 			rs = append(rs, x.coerce(x.value(r), x.fn.Signature.Results().At(i).Type()))
 		}
-		x.rets = append(x.rets, exitRec{st: st.clone(), results: rs, what: fmt.Sprintf("return@b%d", b.Index)})
+		x.rets = append(x.rets, exitRec{st: st.clone(), results: rs, what: fmt.Sprintf("return@b%d", b.Index), blk: b})
 		return false
 	case *ssa.Panic:
 		pv := x.value(in.X)
@@ -876,6 +876,11 @@ func (x *FnExec) finish(args []Val) {
 	for _, r := range x.rets {
 		env := x.envFor(con, fn, args, r.results, r.st.heaps, x.entry.heaps, x.entry.alloc)
 		x.addFreeVarNames(env)
+		if len(con.Witness) > 0 && r.blk != nil {
+			rr := r
+			env.witness = con.Witness
+			env.witnessLocal = func(name string) (TVal, bool) { return x.resolveLocal(name, rr.blk, rr.st) }
+		}
 		for k, ens := range con.Ensures {
 			name := fmt.Sprintf("post%d", k+1)
 			if len(x.rets) > 1 {
